@@ -3548,6 +3548,10 @@ class PyCdlib:
             raise pycdlibexception.PyCdlibInternalError('Tried to remove joliet dir from non-Joliet ISO')
 
         joliet_child = self._find_joliet_record(joliet_path)
+
+        if len(joliet_child.children) > 2:
+            raise pycdlibexception.PyCdlibInvalidInput('Directory must be empty to use rm_directory')
+
         num_bytes_to_remove = joliet_child.get_data_length()
         num_bytes_to_remove += self._remove_child_from_dr(joliet_child,
                                                           joliet_child.index_in_parent)
